@@ -185,9 +185,15 @@ def legacy_runs(arg: dict) -> list[dict]:
     segs = []
     cur = None
     for o in range(arg["start"], arg["end"] + 1):
-        a = rom_to_snes(o, mode)
-        back = snes_to_rom(a)
-        d = back - o
+        try:
+            a = rom_to_snes(o, mode)
+        except Exception:   # the conversions are total on the 4 MiB space: an exception is an observation
+            a = -(1 << 30)
+        try:
+            back = snes_to_rom(a) if a >= 0 else -(1 << 30)
+        except Exception:
+            back = -(1 << 30)
+        d = back - o if back >= 0 else 1
         if cur is not None and a == cur["snes"] + (o - cur["start"]) and d == cur["back_delta"]:
             cur["end"] = o
         else:
@@ -507,6 +513,9 @@ SESSION_SOURCES = {
     "failexpand": {"src": "*=0x008000\n.db 1\nnosuchmacro(1)\n"},
     "faillabel": {"src": "*=0x008000\nx_label:\n.db 1\nlda undefined_sym\n"},
     "failemit": {"src": "*=0x008000\nok_label:\n.db 1\n.macro leaked(v) {\n.db v\n}\nleaked_sym = 7\n.dl undefined_sym\n"},
+    "incA": {"src": "*=0x008000\n.include 'lib.s'\n.db libval\n", "files": {"lib.s": {"text": "libval = 1\n.db 0x11\n"}}},
+    "incfail": {"src": "*=0x008000\n.include 'lib.s'\n.db libval\n", "files": {"lib.s": {"text": "libval = 3\n.ascii 'abc\n.db 0x33\n"}}},
+    "p_incB": {"src": "*=0x008000\n.include 'lib.s'\n.db libval\n", "files": {"lib.s": {"text": "libval = 2\n.db 0x22, 0x23\n"}}},
     "p_plain": {"src": "*=0x008000\na:\n.db 1\n{\na:\n.dl a\n}\n.dl a\nlda.w a\nbra a\n"},
     "p_usesmacro": {"src": "*=0x008000\n.db 1\nm(3)\n"},
     "p_usessym": {"src": "*=0x008000\n.db 1\n.dl shared\n.db k\n"},
@@ -827,7 +836,7 @@ def progress_run(arg: dict) -> dict:
             pass
         obs["parse_ops"] = pr.ops
     if not obs["budget_hit"]:
-        o = assemble({"src": text})
+        o = assemble({"src": text, "files": arg.get("files")})
         obs["outcome"] = "ok" if o["ok"] else "error"
     return obs
 
